@@ -6,7 +6,7 @@ TB = ("Trusted base: Python's ast / clang 14's parser, the checker's own CFG, "
       "/verif/spec reference tables. ")
 
 # properties whose check is finished and registered in MANIFEST.json
-READY = ["C02", "C03", "C05", "C12", "C13", "C14", "C18"]
+READY = ["C02", "C03", "C05", "C09", "C12", "C13", "C14", "C15", "C18"]
 
 CLAIMS = {
     "C02": {
@@ -74,5 +74,25 @@ CLAIMS = {
                 "range-checked where stored or guarded where used; in trxcon a strchr() result is never offset/dereferenced without a NULL "
                 "test and receive-buffer stores/offsets stay in bounds.",
         "note": TB + "Not decided: correctness of later behaviour beyond 'no exception/UB path and guarded state stores'; OS errors; resource exhaustion. Known finding D13 (FAKE_TRXC_DELAY overflow) is listed in known_findings.json.",
+    },
+    "C09": {
+        "technique": "expression normal form of the counter update, guard literals, def-use classification of the worker loop's deadline variable, constant folding of the tick with Python float semantics",
+        "text": "Decides the structure that makes the clock drift-free and consecutive: clck_src := (clck_src + 1) mod 2715648 unconditionally, once "
+                "per tick, after the handler saw the pre-increment value; 'IND CLOCK %u\\0' to every link iff clck_src % ind_period == 0; "
+                "in _worker the deadline variable starts at now(), advances by a loop-invariant tick (folds to 4.615 ms +- 1 us) each "
+                "iteration, is re-based on the clock only under the overrun test, the wait timeout is deadline - now in seconds, one tick "
+                "per iteration iff the wait expired, exit only via the breaker; start() resets the counter before the thread runs; stop() "
+                "joins and resets so start() can run again.",
+        "note": TB + "Not decided: actual tick times under any handler-duration pattern (needs a clock), thread scheduling.",
+    },
+    "C15": {
+        "technique": "forward substitution (writer/reader sibling agreement of the record framing), guard literals for short-read detection, decision tables and statement-order rules of skip/count/append",
+        "text": "Decides for every stored sequence and truncation offset the framing premises: writer emits tag(by class) + '>H' length of "
+                "gen_msg() + that message, reader maps the same tags to the same classes and reads the length with the same format at "
+                "hdr[1:3], HDR_LENGTH = 3, tags distinct, largest message fits 16 bits; a record is returned only if header and body "
+                "were read completely (short reads and EOF give None, unparsable bodies False, never an exception); skip advances idx "
+                "times by header + stored length with a relative seek from a rewound file; parse_all's loop ends on EOF, skips "
+                "unparsable records, stops at count; append writes exactly dump_msg in list order.",
+        "note": TB + "Not decided: field equality of what is returned (C01's round trip); behaviour on files containing unparsable records beyond skip/continue.",
     },
 }
